@@ -49,7 +49,7 @@ MCInitDl == CHOOSE o \in AllDl : o.id = InitDlId
 \* the properties rely on: per endpoint, the lists that verify are numbered, later numbers revoke at least as much and
 \* expire no earlier (a CA does not un-revoke)
 ASSUME \A e \in DOMAIN AllCrl : \A a, b \in AllCrl[e] :
-          (Good(a, AllEpIssuer[e]) /\ Good(b, AllEpIssuer[e]) /\ a.num <= b.num) =>
+          (Genuine(a, AllEpIssuer[e]) /\ Genuine(b, AllEpIssuer[e]) /\ a.num <= b.num) =>
               (a.rev \subseteq b.rev /\ a.nxt <= b.nxt /\ (a.num = b.num => a = b))
 ASSUME \A e \in Endpoints : \E o \in AllCrl[e] : o.id \in InitIds /\ o.id \in CrlIds
 ASSUME PrintT(ToJson([catalogue |-> [crl |-> AllCrl, dl |-> AllDl, issuer |-> AllIssuer, dps |-> AllDPs]]))
